@@ -143,7 +143,7 @@ def parse(out, res):
     vm = re.search(r"Verification Time: ([0-9.]+)s", out)
     if vm:
         res.verif_time = float(vm.group(1))
-    mem = re.search(r"run out of memory|out of memory|std::bad_alloc|Out of memory|memory exhausted", out)
+    mem = re.search(r"run out of memory|out of memory|std::bad_alloc|Out of memory|memory exhausted|memory allocation of \d+ bytes failed", out)
     real_fail = [f for f in res.failed if f["status"] == "FAILURE" and "unwinding assertion" not in f["desc"]]
     unwind = [f for f in res.failed if "unwinding assertion" in f["desc"] and f["status"] == "FAILURE"]
     if "VERIFICATION:- SUCCESSFUL" in out:
